@@ -57,6 +57,17 @@ def invocations(w):
         # the client's omitted -formatid means the store's default namespace (one document), see DESIGN.md C20
         add("deletemetadata formatid=%r" % f, argv,
             lambda w, s, f=f: s.delete_metadata(pid, w.ns if f is None else f))
+    # option and value as two words (the other documented spelling), with a value that starts with a character some
+    # argument parsers treat specially
+    other = w.pids[1]
+    add("storeobject, option and value as separate words", ["-storeobject", "-pid", other, "-path", src],
+        lambda w, s: s.store_object(other, src))
+    add("retrieveobject, separate words", ["-retrieveobject", "-pid", other], lambda w, s: _read(s.retrieve_object(other)))
+    add("storemetadata, separate words", ["-storemetadata", "-pid", other, "-path", doc, "-formatid", "c"],
+        lambda w, s: s.store_metadata(other, doc, "c"))
+    add("getchecksum, separate words", ["-getchecksum", "-pid", other, "-algo", "SHA-256"],
+        lambda w, s: s.get_hex_digest(other, "SHA-256"))
+    add("deleteobject, separate words", ["-deleteobject", "-pid", other], lambda w, s: s.delete_object(other))
     add("retrieveobject", ["-retrieveobject", "-pid=" + pid], lambda w, s: _read(s.retrieve_object(pid)))
     add("retrieveobject (other pid)", ["-retrieveobject", "-pid=" + w.pids[1]], lambda w, s: _read(s.retrieve_object(w.pids[1])))
     add("deleteobject", ["-deleteobject", "-pid=" + pid], lambda w, s: s.delete_object(pid))
@@ -245,7 +256,7 @@ def chs_roundtrip(run, tier):
 
 
 def c20_args(tier):
-    return dict(pids=["a", "b"], contents=[b"x", b"0123456789ab", "l1\r\nl2\rl3\n".encode() + ("\u00e9" * 700).encode("utf-8")],
+    return dict(pids=["a", "@b"], contents=[b"x", b"0123456789ab", "l1\r\nl2\rl3\n".encode() + ("\u00e9" * 700).encode("utf-8")],
                 formats=[None, "c", "bc"], fake_cid=False, sym_dirs=False,
                 docs=[b"<v0/>", "<v1>\r\n\u00e9</v1>".encode("utf-8")])
 
